@@ -4,5 +4,5 @@ set -e
 cd "$(dirname "$0")"
 timeout 600 coqc -Q ../coq/theories BFS Extract.v >/dev/null
 mkdir -p ../build
-ocamlfind ocamlopt -O2 -w -a model.mli model.ml driver_common.ml t1_more.ml t1.ml modelrun.ml -o ../build/modelrun 2>/dev/null \
- || ocamlfind ocamlopt -w -a model.mli model.ml driver_common.ml t1_more.ml t1.ml modelrun.ml -o ../build/modelrun
+ocamlfind ocamlopt -O2 -w -a model.mli model.ml driver_common.ml t1_more.ml t1.ml t2.ml modelrun.ml -o ../build/modelrun 2>/dev/null \
+ || ocamlfind ocamlopt -w -a model.mli model.ml driver_common.ml t1_more.ml t1.ml t2.ml modelrun.ml -o ../build/modelrun
